@@ -436,7 +436,12 @@ def impl_response(kind, param, actset, scaling, calls):
         s, m = r[1]
         outs = []
         for x, dfdy in calls:
-            s.state = np.array(x, dtype=float)
+            xa = np.array(x, dtype=float)
+            if actset is None and xa.ndim == 1 and xa.size in (4, 6, 8, 9, 10, 12) and int(abs(xa[0]) * 1000) % 2 == 0:
+                # the same data as a 2-D array (a field on a grid): the aggregation runs over ALL entries
+                a_ = 3 if xa.size == 9 else 2
+                xa = xa.reshape(a_, xa.size // a_)
+            s.state = xa
             m.reset()
             rr = call_impl(m.response)
             if rr[0] == "err":
@@ -451,7 +456,9 @@ def impl_response(kind, param, actset, scaling, calls):
                 if rr[0] == "err":
                     o["dx"] = {"raises": rr[1]}
                 else:
-                    o["dx"] = np.asarray(s.sensitivity, dtype=float).tolist()
+                    o["dx"] = np.asarray(s.sensitivity, dtype=float).flatten().tolist()
+                    if np.shape(s.sensitivity) != np.shape(s.state):
+                        o["dx"] = {"raises": f"sensitivity shape {np.shape(s.sensitivity)} != state shape {np.shape(s.state)}"}
             outs.append(o)
         return None, outs
 
